@@ -477,4 +477,5 @@ func TestC15(t *testing.T) {
 	defer r.End()
 	core.DFS(r, core.Check[algCase]{Name: "all-subset-pairs", Gen: genAlgExhaustive(r.N(6, 7)), Exec: execAlgCase, NoJournal: true}, 0)
 	core.Rapid(r, core.Check[algCase]{Name: "random-pairs", Gen: genAlgRandom, Exec: execAlgCase}, r.N(1500, 10000))
+	core.DFS(r, core.Check[reusedCase]{Name: "reused-element-objects", Gen: genReused, Exec: execReused, NoJournal: true}, 0)
 }
